@@ -375,6 +375,9 @@ type regIn struct {
 	wildcard bool
 }
 
+// classSwap names every observation explained by the hasCached load-order window.
+const classSwap = "bloom/swap-window-negative"
+
 // state: bit0 = "absent" possible, bit1 = "present" possible.
 func regModel(relaxed bool, initial bool) porcupine.Model {
 	return porcupine.Model{
@@ -450,9 +453,15 @@ func analyse(k *vlib.Case, cfg stackCfg, mode concMode, all, builds []ev, writes
 	}
 	k.SetShape(sb.String())
 	c.Max("max_concurrency", int64(vhist.MaxConcurrency(ops)))
+	for i, e := range all {
+		if i >= 14 {
+			k.Logf("observed: … %d more operations, %d filter builds, %d stamped datastore writes", len(all)-i, len(builds), len(writes))
+			break
+		}
+		k.Logf("observed: %s", e)
+	}
 
 	nontrivial := false
-	swapWindowReads := map[int64]bool{} // call stamps of reads already explained by the swap-window class
 	for key := 0; key < nkeys; key++ {
 		var part []ev
 		for _, e := range all {
@@ -480,64 +489,6 @@ func analyse(k *vlib.Case, cfg stackCfg, mode concMode, all, builds []ev, writes
 				dels = append(dels, e)
 			}
 		}
-		// ---- real-time monitor (headline clause and its dual)
-		for _, rd := range part {
-			if !rd.isRead() {
-				continue
-			}
-			c.Count("rt_reads_checked", 1)
-			if !rd.present {
-				for _, p := range puts {
-					if p.ret >= rd.call {
-						continue
-					}
-					shadow := false
-					for _, d := range dels {
-						if d.ret > p.call && d.call < rd.ret {
-							shadow = true
-							break
-						}
-					}
-					if shadow {
-						continue
-					}
-					cl := "rt/missing-after-put/" + layers
-					for _, b := range builds {
-						if cfg.bloomBytes > 0 && b.kind == "Rebuild" && b.call < rd.ret && b.q != 0 && rd.call < b.q {
-							cl = "rt/missing-after-put/bloom-swap-window"
-							swapWindowReads[rd.call] = true
-							break
-						}
-					}
-					k.Fail(cl, "a key whose Put returned before the read was called, with no Delete overlapping or in between, is not reported missing",
-						"present", fmt.Sprintf("%s   (after %s)\n%s", rd, p, windowDump(part, builds, writes, key, p.call, rd.ret)))
-					break
-				}
-			} else {
-				explained := false
-				for _, p := range puts {
-					if p.call >= rd.ret {
-						continue
-					}
-					killed := false
-					for _, d := range dels {
-						if d.call > p.ret && d.ret < rd.call {
-							killed = true
-							break
-						}
-					}
-					if !killed {
-						explained = true
-						break
-					}
-				}
-				if !explained {
-					k.Fail("rt/present-without-put/"+layers, "a key is reported present only if some Put could precede the read without a completed Delete in between",
-						"absent", fmt.Sprintf("%s\n%s", rd, windowDump(part, builds, writes, key, rd.call-60, rd.ret)))
-				}
-			}
-		}
-		// ---- linearizability
 		// Relaxed models, used only to classify a history that is NOT
 		// linearizable (the strict check decides). Eligibility is decided from
 		// datastore-level stamps, not guessed:
@@ -549,7 +500,9 @@ func analyse(k *vlib.Case, cfg stackCfg, mode concMode, all, builds []ev, writes
 		//     the Delete's datastore write landed before the snapshot of a build
 		//     taken while the Delete had not yet returned (the 2Q entry still says
 		//     present, so Has/GetSize answer present and Put is skipped). An
-		//     absent-read that overlaps that Delete is eligible.
+		//     absent-read, or a second DeleteBlock (answered from the Bloom negative,
+		//     i.e. a no-op that returns while the first is still in flight), that
+		//     overlaps that Delete is eligible.
 		eligA := func(e ev) bool {
 			for _, p := range puts {
 				if p.ret == 0 || !overlap(p, e) {
@@ -578,12 +531,12 @@ func analyse(k *vlib.Case, cfg stackCfg, mode concMode, all, builds []ev, writes
 			return false
 		}
 		eligB := func(e ev) bool {
-			if cfg.tqSize == 0 || e.kind == "Delete" {
+			if cfg.tqSize == 0 || cfg.bloomBytes == 0 {
 				return false
 			}
 			for _, d := range dels {
-				if !overlap(d, e) {
-					continue
+				if !overlap(d, e) || (d.call == e.call && d.client == e.client) {
+					continue // (an operation is never excused by itself)
 				}
 				for _, w := range writes {
 					if w.key != key || !w.del || !(d.call < w.pre && w.post < d.ret) {
@@ -598,7 +551,105 @@ func analyse(k *vlib.Case, cfg stackCfg, mode concMode, all, builds []ev, writes
 			}
 			return false
 		}
-		mk := func(relA, relB bool) ([]porcupine.Operation, int) {
+		//  S  "swap window" (bloomcache.hasCached loads the active flag before the
+		//     filter pointer): an absent-read or a DeleteBlock that was called
+		//     before the Query of a Rebuild was issued and returned after that
+		//     Rebuild was called may have consulted the new, still empty filter.
+		eligS := func(e ev) bool {
+			if cfg.bloomBytes == 0 {
+				return false
+			}
+			for _, b := range builds {
+				if b.kind == "Rebuild" && b.q != 0 && b.call < e.ret && e.call < b.q {
+					return true
+				}
+			}
+			return false
+		}
+		type relax struct {
+			s, a, b bool
+			class   string
+		}
+		// tried in this order; the first that explains the observation names the class
+		relaxations := []relax{
+			{true, false, false, classSwap},
+			{false, true, false, "bloom/negative-while-put-in-flight"},
+			{false, false, true, "bloom/negative-while-delete-in-flight"},
+			{false, true, true, "bloom/negative-while-put-and-delete-in-flight"},
+			{true, true, true, "bloom/swap-window-and-in-flight-write"},
+		}
+		excused := func(r relax, e ev) bool {
+			return (r.s && eligS(e)) || (r.a && eligA(e)) || (r.b && eligB(e))
+		}
+		// ---- real-time monitor (headline clause and its dual)
+		for _, rd := range part {
+			if !rd.isRead() {
+				continue
+			}
+			c.Count("rt_reads_checked", 1)
+			if !rd.present {
+				for _, p := range puts {
+					if p.ret >= rd.call {
+						continue
+					}
+					shadow := false
+					for _, d := range dels {
+						if d.ret > p.call && d.call < rd.ret {
+							shadow = true
+							break
+						}
+					}
+					if shadow {
+						continue
+					}
+					// Only the swap window can excuse a missing returned Put (A and B
+					// need an in-flight write of the key, which this clause excludes).
+					cl := "rt/missing-after-put/" + layers
+					if eligS(rd) {
+						cl = classSwap
+					}
+					k.Fail(cl, "a key whose Put returned before the read was called, with no Delete overlapping or in between, is not reported missing",
+						"present", fmt.Sprintf("%s   (after %s)\n%s", rd, p, windowDump(part, builds, writes, key, p.call, rd.ret)))
+					break
+				}
+			} else {
+				// explain: some Put could precede the read with no completed Delete
+				// in between. Under a relaxation, completed Deletes that the stamps
+				// show to be possible Bloom-negative no-ops are not counted.
+				explain := func(r relax) bool {
+					for _, p := range puts {
+						if p.call >= rd.ret {
+							continue
+						}
+						killed := false
+						for _, d := range dels {
+							if d.call > p.ret && d.ret < rd.call && !excused(r, d) {
+								killed = true
+								break
+							}
+						}
+						if !killed {
+							return true
+						}
+					}
+					return false
+				}
+				if !explain(relax{}) {
+					cl := "rt/present-without-put/" + layers
+					for _, r := range relaxations {
+						// (relaxation A cannot excuse a Delete that was called after the Put returned)
+						if (r.s || r.b) && explain(relax{s: r.s, b: r.b}) {
+							cl = r.class
+							break
+						}
+					}
+					k.Fail(cl, "a key is reported present only if some Put could precede the read without a completed Delete in between",
+						"absent", fmt.Sprintf("%s\n%s", rd, windowDump(part, builds, writes, key, rd.call-60, rd.ret)))
+				}
+			}
+		}
+		// ---- linearizability
+		mk := func(r relax) ([]porcupine.Operation, int) {
 			var po []porcupine.Operation
 			nw := 0
 			for _, e := range part {
@@ -613,18 +664,16 @@ func analyse(k *vlib.Case, cfg stackCfg, mode concMode, all, builds []ev, writes
 					in.op = 2
 					out = e.present
 				}
-				if (relA || relB) && cfg.bloomBytes > 0 && (in.op == 1 || (in.op == 2 && !e.present)) {
-					if swapWindowReads[e.call] || (relA && eligA(e)) || (relB && eligB(e)) {
-						in.wildcard = true
-						nw++
-					}
+				if (in.op == 1 || (in.op == 2 && !e.present)) && excused(r, e) {
+					in.wildcard = true
+					nw++
 				}
 				po = append(po, porcupine.Operation{ClientId: e.client, Input: in, Output: out, Call: e.call, Return: e.ret})
 			}
 			return po, nw
 		}
 		c.Count("porcupine_partitions", 1)
-		strictOps, _ := mk(false, false)
+		strictOps, _ := mk(relax{})
 		switch vhist.Check(regModel(false, initial[key]), strictOps, 20*time.Second) {
 		case vhist.Ok:
 		case vhist.Unknown:
@@ -634,11 +683,8 @@ func analyse(k *vlib.Case, cfg stackCfg, mode concMode, all, builds []ev, writes
 			class := ""
 			unknown := false
 			nelig := 0
-			for _, try := range []struct {
-				a, b  bool
-				class string
-			}{{true, false, "bloom/negative-while-put-in-flight"}, {false, true, "bloom/negative-while-delete-in-flight"}, {true, true, "bloom/negative-while-put-and-delete-in-flight"}} {
-				ops, nw := mk(try.a, try.b)
+			for _, r := range relaxations {
+				ops, nw := mk(r)
 				if nw == 0 {
 					continue
 				}
@@ -649,10 +695,7 @@ func analyse(k *vlib.Case, cfg stackCfg, mode concMode, all, builds []ev, writes
 				}
 				if v == vhist.Ok {
 					c.Count("relaxed_model_explained_partitions", 1)
-					class, nelig = try.class, nw
-					if len(swapWindowReads) > 0 && onlySwap(ops, swapWindowReads) {
-						class = "swap"
-					}
+					class, nelig = r.class, nw
 					break
 				}
 			}
@@ -661,31 +704,18 @@ func analyse(k *vlib.Case, cfg stackCfg, mode concMode, all, builds []ev, writes
 			switch {
 			case unknown:
 				c.Inconclusive(1)
-			case class == "swap":
-				// already reported by the real-time monitor under its own class
 			case class != "":
 				k.Fail(class, "per-key history is linearizable against a register {absent|present}",
-					"linearizable", "not linearizable; it becomes linearizable once the Bloom negatives that the datastore-level stamps attribute to an in-flight write straddling a filter (re)build are treated as wildcards (see harness: eligA/eligB)\n"+witness)
+					"linearizable", "not linearizable; it becomes linearizable once the Bloom negatives (absent-reads, DeleteBlock short-cuts) that the recorded stamps attribute to the named mechanism are treated as wildcards (harness: eligS/eligA/eligB)\n"+witness)
 			default:
 				k.Fail("lin/not-linearizable/"+layers, "per-key history is linearizable against a register {absent|present}",
-					"linearizable", "not linearizable, also not under the relaxed in-flight-write models\n"+witness)
+					"linearizable", "not linearizable, also not under the relaxed models\n"+witness)
 			}
 		}
 	}
 	if nontrivial {
 		k.Nontrivial()
 	}
-}
-
-// onlySwap reports whether every wildcard of the relaxed history is a read
-// already reported under the swap-window class.
-func onlySwap(ops []porcupine.Operation, swap map[int64]bool) bool {
-	for _, o := range ops {
-		if o.Input.(regIn).wildcard && !swap[o.Call] {
-			return false
-		}
-	}
-	return true
 }
 
 func dump(es []ev) string {
@@ -818,7 +848,7 @@ func runHammer(k *vlib.Case, mode concMode) {
 			near := ""
 			for _, b := range builds {
 				if b.call < e.ret && b.q != 0 && e.call < b.q {
-					cl = "rt/missing-after-put/bloom-swap-window"
+					cl = classSwap
 					near = b.String()
 					break
 				}
